@@ -548,7 +548,7 @@ Proof.
       unfold wf_prog in Hw. rewrite forallb_forall in Hw.
       rewrite pstmt_ok; [reflexivity | apply Hw, Hin |].
       pose proof (flat_len_in g p s Hin) as Hl. unfold g at 1 in Hl. rewrite app_length in Hl. fold n in Hl. lia.
-    - unfold sep_none, pline, pstmt, pexpr. rewrite pexp_none by apply pfac_nil. reflexivity. }
+    - unfold sep_none, pline, pstmt, pstmt_main, prhs, pexpr. cbn [app]. rewrite !pexp_none by apply pfac_nil. reflexivity. }
   rewrite app_nil_r in H. rewrite H. reflexivity.
 Qed.
 
@@ -564,7 +564,7 @@ Theorem matrix_rows_preserved_thm rows rows' :
 Proof.
   intros Hw H. rewrite fmt_parse_thm in H.
   - injection H as <-. split; reflexivity.
-  - cbn [wf_prog forallb wf_stmt is_expr is_formula is_fac]. rewrite Hw. reflexivity.
+  - cbn [wf_prog forallb wf_stmt wf_rhs is_expr is_formula is_fac]. rewrite Hw. reflexivity.
 Qed.
 
 (* ------------------------------------------------------------------ formatter.rs agrees with the canonical printer outside the defect classes *)
